@@ -422,7 +422,10 @@ def main(argv=None):
 
         wall = time.time() - t0
         cov = {
-            "evaluations": int(counters.get("evaluations", 0)),
+            # evaluations = oracle evaluations at the granularity at which non-trivial cases are counted (a module may name
+            # the counter, e.g. rule applications); cases_generated = inputs produced by the generators / enumerations
+            "evaluations": int(counters.get(getattr(mod, "EVALUATION_COUNTER", "evaluations"), 0)) or int(counters.get("evaluations", 0)),
+            "cases_generated": int(counters.get("evaluations", 0)),
             "distinct_nontrivial": len(nontrivial),
             "rule": getattr(mod, "RULE", ""),
             "samples": samples or ["(no samples recorded)"],
@@ -454,7 +457,7 @@ def main(argv=None):
         for ln in lines:
             print(ln)
         print(
-            f"{prop} {a.tier} seed={seed}: evaluations={cov['evaluations']} distinct_nontrivial={cov['distinct_nontrivial']} "
+            f"{prop} {a.tier} seed={seed}: cases={cov['cases_generated']} evaluations={cov['evaluations']} distinct_nontrivial={cov['distinct_nontrivial']} "
             f"violations={nviol} wall={wall:.1f}s"
         )
         return 1 if nviol else 0
